@@ -17,6 +17,21 @@ class Methods:
             if name in ('match', 'search', 'fullmatch'):
                 return self.regex_match(obj.lang, name, a0, node, env)
             if name == 'sub':
+                rp = S.const_value(env, a0) if isinstance(a0, Str) else None
+                src = args[1] if len(args) > 1 else None
+                if rp is not None and isinstance(src, Str) and len(args) == 2 and not kwargs:
+                    # every character of the result is a character of the source or of the constant replacement; a non-empty
+                    # replacement keeps a non-empty source non-empty, and the edges are source edges or replacement edges
+                    allc = S.join_cls(env, src) | self.B.cls_of_chars(rp)
+                    if not rp:
+                        return S.any_str(env, 0, src.hi, allc)
+                    lo = 1 if (src.lo or 0) >= 1 else 0
+                    if src.fixed:
+                        first, last = (env.cls(src.pre[0]), env.cls(src.pre[-1])) if src.pre else (allc, allc)
+                    else:
+                        first = env.cls(src.pre[0]) if src.pre else allc
+                        last = env.cls(src.suf[0]) if src.suf else allc
+                    return Str([env.new_cell(first | self.B.cls_of_chars(rp[0]))], env.new_cell(allc), [env.new_cell(last | self.B.cls_of_chars(rp[-1]))], lo, None, True)
                 return S.any_str(env)
             if name == 'findall':
                 return ListOf(TOP, 0, None)
@@ -82,8 +97,10 @@ class Methods:
                 return res
             if name == 'items':
                 return Tup([Tup([S.const(k), x]) for k, x in obj.d.items()])
-            if name == 'update':
-                return NONE
+            if name in ('update', 'setdefault', 'pop', 'clear'):
+                # the key set is no longer known
+                env.replace_value(obj, Opaque('dict'))
+                return NONE if name in ('update', 'clear') else TOP
         if isinstance(obj, Tup):
             if name in ('append', 'extend', 'insert') and obj.mutable:
                 if name == 'append':
